@@ -215,6 +215,7 @@ type World struct {
 	record   bool
 	retMemo  map[*FuncInfo][]ref
 	secMemo  map[*FuncInfo]map[string]int
+	mutMemo  map[*FuncInfo]bool
 	retBusy  map[*FuncInfo]bool
 }
 
@@ -229,6 +230,7 @@ func main() {
 		fmt.Fprintln(os.Stderr, "extract15:", err)
 		os.Exit(2)
 	}
+	w.mutMemo = map[*FuncInfo]bool{}
 	w.run()
 	out := w.output()
 	lean := leanText(out)
@@ -741,6 +743,204 @@ type an struct {
 	rets   [][]ref
 	exits  map[string]int // max section counts over the return points seen so far
 	via    string
+	// receiver of the method being analysed, when its type is a struct with a mutex field ("guarded struct")
+	recvObj types.Object
+	recvT   *types.Named
+}
+
+// guardFields: names of the fields of struct type t whose type is (a pointer to / a wrapper embedding) a sync mutex
+func guardFields(t types.Type) []string {
+	if pt, ok := t.(*types.Pointer); ok {
+		t = pt.Elem()
+	}
+	st, ok := t.Underlying().(*types.Struct)
+	if !ok {
+		return nil
+	}
+	var r []string
+	for i := 0; i < st.NumFields(); i++ {
+		f := st.Field(i)
+		if isMutexType(f.Type()) || embedsMutex(f.Type()) {
+			r = append(r, f.Name())
+		}
+	}
+	return r
+}
+
+func isMutexType(t types.Type) bool {
+	if pt, ok := t.(*types.Pointer); ok {
+		t = pt.Elem()
+	}
+	if nt, ok := t.(*types.Named); ok && nt.Obj().Pkg() != nil && nt.Obj().Pkg().Path() == "sync" {
+		return nt.Obj().Name() == "Mutex" || nt.Obj().Name() == "RWMutex"
+	}
+	return false
+}
+
+// setRecv records the receiver of fd if its type is a guarded struct
+func (a *an) setRecv(fd *ast.FuncDecl) {
+	a.recvObj, a.recvT = nil, nil
+	if fd == nil || fd.Recv == nil || len(fd.Recv.List) != 1 || len(fd.Recv.List[0].Names) != 1 {
+		return
+	}
+	obj := a.p.info.Defs[fd.Recv.List[0].Names[0]]
+	if obj == nil {
+		return
+	}
+	t := obj.Type()
+	if pt, ok := t.(*types.Pointer); ok {
+		t = pt.Elem()
+	}
+	nt, ok := t.(*types.Named)
+	if !ok || len(guardFields(nt)) == 0 {
+		return
+	}
+	a.recvObj, a.recvT = obj, nt
+}
+
+// recvField: is e `r.f` with r the receiver of a guarded struct and f a direct data field of it?
+func (a *an) recvField(e ast.Expr) (*types.Var, Class, bool) {
+	if a.recvObj == nil {
+		return nil, Class{}, false
+	}
+	sel, ok := ast.Unparen(e).(*ast.SelectorExpr)
+	if !ok {
+		return nil, Class{}, false
+	}
+	id, ok := ast.Unparen(sel.X).(*ast.Ident)
+	if !ok || a.p.info.Uses[id] != a.recvObj {
+		return nil, Class{}, false
+	}
+	s, ok := a.p.info.Selections[sel]
+	if !ok || s.Kind() != types.FieldVal || len(s.Index()) != 1 {
+		return nil, Class{}, false
+	}
+	fv := s.Obj().(*types.Var)
+	if isMutexType(fv.Type()) || embedsMutex(fv.Type()) || selfSync(fv.Type()) {
+		return nil, Class{}, false
+	}
+	if _, isAtomic := a.w.atomObj[fv]; isAtomic {
+		return nil, Class{}, false
+	}
+	pk := ""
+	if a.recvT.Obj().Pkg() != nil {
+		pk = relPath(a.recvT.Obj().Pkg().Path())
+	}
+	return fv, Class{Pkg: pk, Var: a.recvT.Obj().Name() + "." + fv.Name()}, true
+}
+
+func (a *an) isOwnRecv(e ast.Expr) bool {
+	id, ok := ast.Unparen(e).(*ast.Ident)
+	return ok && a.recvObj != nil && a.p.info.Uses[id] == a.recvObj
+}
+
+var pureMethodNames = map[string]bool{"Len": true, "Back": true, "Front": true, "Prev": true, "Next": true, "Contains": true,
+	"Peek": true, "Keys": true, "String": true, "Load": true, "Name": true}
+
+// mutates: may a call of method f change the state reachable from its receiver?  (syntactic, conservative)
+func (w *World) mutates(f *FuncInfo) bool {
+	if v, ok := w.mutMemo[f]; ok {
+		return v
+	}
+	w.mutMemo[f] = true // recursion: assume the worst
+	fd := f.decl
+	res := false
+	if fd.Recv == nil || len(fd.Recv.List) != 1 || len(fd.Recv.List[0].Names) != 1 {
+		w.mutMemo[f] = true
+		return true
+	}
+	p := f.pkg
+	recv := p.info.Defs[fd.Recv.List[0].Names[0]]
+	var rooted func(e ast.Expr) bool
+	rooted = func(e ast.Expr) bool {
+		switch x := ast.Unparen(e).(type) {
+		case *ast.Ident:
+			return p.info.Uses[x] == recv
+		case *ast.SelectorExpr:
+			return rooted(x.X)
+		case *ast.IndexExpr:
+			return rooted(x.X)
+		case *ast.StarExpr:
+			return rooted(x.X)
+		case *ast.SliceExpr:
+			return rooted(x.X)
+		}
+		return false
+	}
+	ast.Inspect(fd.Body, func(n ast.Node) bool {
+		if res {
+			return false
+		}
+		switch x := n.(type) {
+		case *ast.AssignStmt:
+			for _, l := range x.Lhs {
+				if _, isId := ast.Unparen(l).(*ast.Ident); !isId && rooted(l) {
+					res = true
+				}
+			}
+		case *ast.IncDecStmt:
+			if _, isId := ast.Unparen(x.X).(*ast.Ident); !isId && rooted(x.X) {
+				res = true
+			}
+		case *ast.CallExpr:
+			if id, ok := ast.Unparen(x.Fun).(*ast.Ident); ok {
+				if _, isB := p.info.Uses[id].(*types.Builtin); isB {
+					if (id.Name == "delete" || id.Name == "clear" || id.Name == "copy") && len(x.Args) > 0 && rooted(x.Args[0]) {
+						res = true
+					}
+					return true
+				}
+			}
+			if sel, ok := ast.Unparen(x.Fun).(*ast.SelectorExpr); ok && rooted(sel.X) {
+				if _, isSel := p.info.Selections[sel]; isSel {
+					if s := p.info.Selections[sel]; s.Kind() == types.FieldVal {
+						res = true // calling a function-valued field: unknown effect
+						return true
+					}
+					if pureMethodNames[sel.Sel.Name] {
+						return true
+					}
+					if fo, ok := p.info.Uses[sel.Sel].(*types.Func); ok {
+						if g := w.funcOf(fo); g != nil {
+							if w.mutates(g) {
+								res = true
+							}
+							return true
+						}
+					}
+					res = true
+					return true
+				}
+			}
+			for _, arg := range x.Args {
+				if rooted(arg) {
+					if tv, ok := p.info.Types[arg]; ok && tv.Type != nil {
+						switch tv.Type.Underlying().(type) {
+						case *types.Pointer, *types.Map, *types.Slice, *types.Interface, *types.Chan:
+							res = true // receiver state handed to other code
+						}
+					}
+				}
+			}
+		}
+		return true
+	})
+	w.mutMemo[f] = res
+	return res
+}
+
+func (w *World) funcOf(fo *types.Func) *FuncInfo {
+	if fo == nil || fo.Pkg() == nil {
+		return nil
+	}
+	p := w.pkgs[fo.Pkg().Path()]
+	if p == nil {
+		return nil
+	}
+	if g := p.byObj[fo]; g != nil {
+		return g
+	}
+	return p.funcs[funcKey(fo)]
 }
 
 func (a *an) addSec(st *state, key string, n int) {
@@ -765,10 +965,16 @@ func (a *an) unknown(pos token.Pos, what string) {
 	a.w.unknowns = append(a.w.unknowns, Unknown{Phase: a.phase(), Fn: a.fn.key, Pos: a.w.pos(pos), What: what})
 }
 
-func heldList(h map[string]bool) []Held {
+// heldList: the mutexes that count as protection of class c: package-level mutexes always; the mutex fields of the
+// receiver (keys "#field:T.g", produced only for `recv.g`) only for the data fields of that same receiver.
+func heldList(h map[string]bool, c Class) []Held {
 	r := []Held{}
+	own := ""
+	if i := strings.Index(c.Var, "."); i > 0 {
+		own = "#field:" + c.Pkg + "." + c.Var[:i] + "."
+	}
 	for k, v := range h {
-		if strings.Contains(k, "#field:") { // instance-insensitive field mutexes never protect a global class
+		if strings.HasPrefix(k, "#field:") && (own == "" || !strings.HasPrefix(k, own) || strings.HasSuffix(k, "@other")) {
 			continue
 		}
 		r = append(r, Held{k, v})
@@ -784,10 +990,10 @@ func (a *an) access(st *state, r ref, write bool, pos token.Pos) {
 	if !(a.rec || (a.inline && r.via)) {
 		return
 	}
-	if p := a.w.pkgs[module+r.cls.Pkg]; p == nil || !p.track {
+	if p := a.w.pkgs[module+r.cls.Pkg]; p == nil || !(p.track || strings.Contains(r.cls.Var, ".")) {
 		return
 	}
-	a.w.rows = append(a.w.rows, Row{Class: r.cls.String(), Write: write, Held: heldList(st.held), Phase: a.phase(),
+	a.w.rows = append(a.w.rows, Row{Class: r.cls.String(), Write: write, Held: heldList(st.held, r.cls), Phase: a.phase(),
 		Fn: a.fn.key, Pos: a.w.pos(pos), Via: a.via})
 }
 
@@ -857,7 +1063,13 @@ func (a *an) classOfGlobal(v *types.Var, depth int) Class {
 	return Class{Pkg: relPath(v.Pkg().Path()), Var: v.Name(), Depth: depth}
 }
 
-func (a *an) typeOf(e ast.Expr) types.Type { return a.p.info.TypeOf(e) }
+func (a *an) typeOf(e ast.Expr) types.Type {
+	t := a.p.info.TypeOf(e)
+	if tu, ok := t.(*types.Tuple); ok && tu.Len() > 0 { // comma-ok forms: v, ok := m[k]
+		return tu.At(0).Type()
+	}
+	return t
+}
 
 // deep read: the value is handed to code that may read everything reachable through containers
 func (a *an) deepRead(st *state, r ref, t types.Type, pos token.Pos) {
@@ -911,6 +1123,14 @@ func (a *an) refOf(st *state, e ast.Expr) ref {
 				}
 				return ref{}
 			}
+		}
+		if fv, cls, ok := a.recvField(x); ok {
+			a.access(st, ref{ok: true, cls: cls}, false, x.Pos())
+			if isContainer(fv.Type()) {
+				cls.Depth = 1
+				return ref{ok: true, cls: cls}
+			}
+			return ref{}
 		}
 		a.refOf(st, x.X)
 		return ref{}
@@ -1096,7 +1316,11 @@ func (a *an) mutexName(e ast.Expr) string {
 			}
 		}
 		if s, ok := a.p.info.Selections[x]; ok && s.Kind() == types.FieldVal {
-			return "#field:" + typeName(s.Recv()) + "." + x.Sel.Name
+			k := "#field:" + typeName(s.Recv()) + "." + x.Sel.Name
+			if a.recvObj != nil && !a.isOwnRecv(x.X) {
+				k += "@other" // some other instance's mutex: never protects the receiver's fields
+			}
+			return k
 		}
 	case *ast.StarExpr:
 		return a.mutexName(x.X)
@@ -1248,10 +1472,26 @@ func (a *an) call(st *state, ce *ast.CallExpr, deferred bool) []ref {
 	// receiver and arguments
 	var recv ref
 	var recvT types.Type
+	ownRecvCall := false
 	if sel, ok := ast.Unparen(ce.Fun).(*ast.SelectorExpr); ok {
 		if s, isSel := a.p.info.Selections[sel]; isSel {
 			recv = a.refOf(st, sel.X)
 			recvT = s.Recv()
+			ownRecvCall = a.isOwnRecv(sel.X)
+			// a method called on a (non-container) data field of the guarded receiver acts on the object it holds
+			if fv, cls, isF := a.recvField(sel.X); isF && !isContainer(fv.Type()) && s.Kind() == types.MethodVal {
+				write := !pureMethodNames[sel.Sel.Name]
+				if write {
+					if g := a.w.funcOf(fo); g != nil {
+						write = a.w.mutates(g)
+					}
+				}
+				cls.Depth = 1
+				a.access(st, ref{ok: true, cls: cls}, false, ce.Pos())
+				if write {
+					a.access(st, ref{ok: true, cls: cls}, true, ce.Pos())
+				}
+			}
 		}
 	} else if _, ok := ast.Unparen(ce.Fun).(*ast.Ident); !ok {
 		a.refOf(st, ce.Fun)
@@ -1277,8 +1517,16 @@ func (a *an) call(st *state, ce *ast.CallExpr, deferred bool) []ref {
 		if deferred {
 			h = map[string]bool{}
 		}
+		hs := copyHeld(h)
+		if !ownRecvCall { // the callee's receiver is another object: this receiver's field mutexes say nothing about it
+			for k := range hs {
+				if strings.HasPrefix(k, "#field:") {
+					delete(hs, k)
+				}
+			}
+		}
 		if callee.pkg == a.p {
-			callee.sites = append(callee.sites, h)
+			callee.sites = append(callee.sites, hs)
 		}
 		a.fn.calls = append(a.fn.calls, callSite{callee: callee.key, held: h, inLoop: a.loop > 0, pos: a.w.pos(ce.Pos())})
 	}
@@ -1421,8 +1669,14 @@ func (a *an) inlineCall(st *state, callee *FuncInfo, recv ref, args []ref, ce *a
 	calleeCopy := *callee
 	calleeCopy.phase = a.fn.phase
 	sub.fn = &calleeCopy
+	sub.setRecv(callee.decl)
 	ist := newState()
 	ist.held = copyHeld(st.held)
+	for k := range ist.held {
+		if strings.HasPrefix(k, "#field:") {
+			delete(ist.held, k)
+		}
+	}
 	mark := func(r ref) ref { r.via = true; return r }
 	fd := callee.decl
 	if fd.Recv != nil && len(fd.Recv.List) == 1 && len(fd.Recv.List[0].Names) == 1 && recv.ok {
@@ -1457,6 +1711,7 @@ func (a *an) inlineCall(st *state, callee *FuncInfo, recv ref, args []ref, ce *a
 }
 
 func (a *an) funcBody(fd *ast.FuncDecl, st *state) {
+	a.setRecv(fd)
 	a.block(st, fd.Body.List)
 	a.noteExit(st)
 }
@@ -1520,6 +1775,12 @@ func (a *an) assignTo(st *state, lhs ast.Expr, r ref, rhs ast.Expr, define bool)
 			a.unknown(lhs.Pos(), "alias of "+r.cls.String()+" stored into an untracked container")
 		}
 	case *ast.SelectorExpr:
+		if _, cls, ok := a.recvField(x); ok {
+			a.access(st, ref{ok: true, cls: cls}, true, x.Pos())
+			cls.Depth = 1
+			a.publish(st, rhs, r, cls, lhs.Pos())
+			return
+		}
 		// field write; a field of a package-level struct variable is a write of its cell
 		if id, ok := ast.Unparen(x.X).(*ast.Ident); ok {
 			if v, ok := a.globalVar(id); ok && !selfSync(v.Type()) {
